@@ -267,6 +267,21 @@ impl<'a, 'b> Cone<'a, 'b> {
             Kind::Adopted(d) => {
                 if m.dyn_valid(*d) {
                     let e = &m.dyns[*d];
+                    if self.mode == ConeMode::Stable {
+                        // the node is only there for the whole round if the bind that made it does
+                        // not re-run in it (it is invalidated, and lets go of its inputs, when it does);
+                        // nodes of nested scopes are not followed at all
+                        let stays = match e.scope.as_slice() {
+                            [(NodeKey::Top(b), _)] => match (&m.nodes[*b].kind, m.bind_force.get(&NodeKey::Top(*b))) {
+                                (Kind::Bind(lhs, _), Some((_, lv))) => self.ev.node(*lhs).map(|v| v.i()) == Some(*lv),
+                                _ => false,
+                            },
+                            _ => false,
+                        };
+                        if !stays {
+                            return;
+                        }
+                    }
                     self.visit_tm(&e.tm.clone(), &e.ctx.clone());
                 }
             }
